@@ -127,13 +127,15 @@ Record wf (sw : switches) (s : state) : Prop := {
   (* connClosed is in progress only while close() waits for the server loop *)
   wf_closer : match ph s with Closing => True | _ => closer s = None end;
   (* an open client exists only from its creation in Start until the session ends *)
-  wf_cli : match ph s with Registering | AwaitConfigure | Configured => True | _ => cli_open s = false end;
+  wf_cli : match ph s with Registering | AwaitConfigure | AwaitLost | Configured => True | _ => cli_open s = false end;
   (* every client ever created has exactly one close notification, somewhere *)
   wf_tokens : forall g, tokens s g = b2n (Nat.leb 1 g && Nat.leb g (gen s));
   wf_conn : match ph s with
             | AwaitConfigure => wait_cfg_unguarded sw = false -> conn_live (sconn s) = true
             | Idle => dead_conn_reused sw = false -> sconn s = CNone
             | MuxUp | Registering => dead_conn_reused sw = false -> conn_live (sconn s) = true
+            (* Start can only be left waiting without a result if Configure omits the send on some path *)
+            | AwaitLost => cfg_ok_unsent sw || cfg_hookerr_unsent sw || cfg_reject_unsent sw = true
             | _ => True
             end;
   wf_started : match ph s with Configured => started s = true | Idle => started s = false | _ => True end;
@@ -148,4 +150,9 @@ Definition healthy_start : list action := [AStart; EDialOk; ISetupOk; ERegOk; EC
 Definition same_session (s s' : state) : Prop :=
   ph s' = ph s /\ started s' = started s /\ sconn s' = sconn s /\ gen s' = gen s /\ cli_open s' = cli_open s /\
   waiters s' = waiters s /\ established s' = established s /\ last_start s' = last_start s.
+
+
+(* Configure hands its result to Start on every way it can end *)
+Definition results_sent (sw : switches) : Prop :=
+  cfg_ok_unsent sw = false /\ cfg_hookerr_unsent sw = false /\ cfg_reject_unsent sw = false.
 
